@@ -75,6 +75,7 @@ def apply_region(arr, region):
         return sym.ite(region.cond(x), region.value(x), old.at(*x))
     arr._fn = fn
     arr._memo = {}
+    arr._touch()
     sym.ctx().ghost.setdefault("regions", []).append((arr, region))
 
 
